@@ -1,5 +1,6 @@
-\* pathdb, repaired design, Update flattening by itself (the code: at 128 layers; here at 2): 4 updates
-\* (forks, repeated roots, empty blocks) on 2 tries of height 1, journal, 1 restart, crash inside Commit
+\* pathdb, repaired design, Update flattening by itself (the code: at 128 layers; here at 2): 4 updates (forks, repeated
+\* roots, empty blocks) on 2 tries of height 1, graceful shutdown, crash, crash inside Commit, 1 restart
+\* measured: 209 932 distinct states, depth 10 (2 min, 4 workers)
 CONSTANTS
   H = 1
   MaxV = 1
